@@ -262,6 +262,14 @@ def gen_species(rng, tier, focus):
         else:
             pos = gen.grow_positions(rng, n, edges, 0.2)
         info = {"geometry": "small"}
+        if rng.random() < 0.3:
+            # one atom EXACTLY at the origin of the coordinate system (a molecule centred there, a file written that way)
+            k0 = rng.randrange(n)
+            shift = np.array(pos[k0], dtype=float)
+            pos = [list(map(float, np.array(p_) - shift)) for p_ in pos]
+            if rng.random() < 0.3:
+                pos[k0] = [-0.0, 0.0, -0.0]
+            info["atom_at_origin"] = k0
     n_res = 1 if n < 2 or rng.random() < 0.6 else rng.randint(1, min(3, n))
     cuts = sorted(rng.sample(range(1, n), n_res - 1)) if n_res > 1 else []
     r = 0
@@ -313,6 +321,12 @@ def gen_species(rng, tier, focus):
 def rigid(rng, positions=None):
     R = gen.random_rotation(rng)
     t = gen.rvec(rng, rng.choice([0.0, 1.0, 30.0, 100.0]))
+    if positions is not None and rng.random() < 0.12:
+        # the motion puts one reference atom EXACTLY on the origin (t = -(R p), computed the way it is applied)
+        kz = rng.randrange(len(positions))
+        p = np.array(positions[kz], dtype=float)
+        t = (-(p @ R.T)).tolist()
+        return {"R": R.tolist(), "t": t, "zero_atom": kz}
     if positions is not None and rng.random() < 0.3:
         # a rotation about an axis through one reference atom: that atom (often an anchor) stays where it was
         # while its frame neighbours move
@@ -881,6 +895,8 @@ def _execute(trace, ctx, ref_spec, tgt_spec, scale, n, m, ref_pos0, tgt_pos0):
         if "R" in op:
             R = np.array(op["R"])
             pos = pos @ R.T + np.array(op["t"])
+            if op.get("zero_atom") is not None and op["zero_atom"] < len(pos):
+                pos = pos - pos[op["zero_atom"]]          # (rounding residue of R p + t removed: that atom sits at 0.0 exactly)
         return pos
 
     def do_call(op, i):
